@@ -775,6 +775,10 @@ def run(ctx):
     from .shared import ensemble_record_agreement
     ctx.attempt(ensemble_record_agreement, ctx, "R-16.9", [TIS], None, ": zero_momentum = true is ignored by engines whose default is false (net momentum kept), zero_momentum = false by those whose default is true")
     impls = implementations(ctx.tree)
+    ctx.rule("R-16.15", "the box of the regenerated GROMACS / CP2K shooting point is the box of the frame: the flattened box matrix has the element order of the g96 BOX record (shared with C19 R-19.6)", floor=1)
+    from . import c19 as _c19o
+    from .shared import RuleProxy as _RP16o
+    ctx.attempt(_c19o.r196, _RP16o(ctx, "R-16.15", " - dump_frame -> _extract_frame writes conf.g96 through this helper and modify_velocities carries that BOX block into genvel.g96: velocity regeneration changes the (triclinic) box of the shooting point"))
     ctx.rule("R-16.13", "velocity regeneration only reads the settings table it is handed (the ensemble's shared tis_set): no pop / delete / item store on it in any modify_velocities", floor=4)
     ctx.attempt(r1613, ctx, impls)
     armed = 0
@@ -809,6 +813,7 @@ def run(ctx):
 
 
 VARIANTS = [
+    B("c16-box-matrix-flattened-transposed", "infretis/classes/engines/engineparts.py", "            matrix[0, 1],\n            matrix[0, 2],\n            matrix[1, 0],\n            matrix[1, 2],\n            matrix[2, 0],\n            matrix[2, 1],\n", "            matrix[1, 0],\n            matrix[2, 0],\n            matrix[0, 1],\n            matrix[2, 1],\n            matrix[0, 2],\n            matrix[1, 2],\n", "R-16.15", control=True, why="seeded C16_o"),
     B("c16-lammps-positions-through-the-shifting-reader", LAMMPS, "        id_type, xyz, vel, box = read_lammpstrj(pos, 0, self.n_atoms)\n        kin_old", "        id_type, _, _, box = read_lammpstrj(pos, 0, self.n_atoms)\n        xyz, vel, _, _ = self._read_configuration(pos)\n        kin_old", "R-16.1", control=True, why="seeded C16_n"),
     K("c16-keep-lammps-frame-read-into-a-tuple", LAMMPS, "        id_type, xyz, vel, box = read_lammpstrj(pos, 0, self.n_atoms)\n        kin_old", "        frame = read_lammpstrj(pos, 0, self.n_atoms)\n        id_type, xyz, vel, box = frame\n        kin_old"),
     B("c16-cp2k-extract-appends", CP2K, "                write_xyz_trajectory(\n                    out_file, xyz, vel, names, box, append=False\n                )", "                write_xyz_trajectory(out_file, xyz, vel, names, box, False)", "R-16.14", control=True, why="seeded C16_m (= C19_i)"),
